@@ -908,6 +908,32 @@ func caseBody(fd *ast.FuncDecl, ty string) []ast.Stmt {
 	return res
 }
 
+// caseBodyMain: like caseBody, but of the last type switch that has such a case — the switch over the parameter
+// kinds that binds an argument, which comes after the early branches for arguments that were not passed
+func caseBodyMain(fd *ast.FuncDecl, ty string) []ast.Stmt {
+	var res []ast.Stmt
+	found := false
+	ast.Inspect(fd.Body, func(n ast.Node) bool {
+		cc, ok := n.(*ast.CaseClause)
+		if !ok {
+			return true
+		}
+		for _, t := range cc.List {
+			if exprString(t) == ty {
+				res, found = cc.Body, true
+			}
+		}
+		return true
+	})
+	if !found {
+		return nil
+	}
+	if res == nil {
+		res = []ast.Stmt{}
+	}
+	return res
+}
+
 // ---------------------------------------------------------------- enforcement runs on every evaluation
 
 // enforcement functions: a call of one of these IS the test of an enforcement point
@@ -1043,7 +1069,266 @@ func instGlue(files map[string]*ast.File) (abstractFirst, validateEvery bool) {
 	return
 }
 
+// ---------------------------------------------------------------- binding loops
+//
+// A callable is entered through a loop over its parameters. The result of binding parameter i (a data.Control
+// held in a variable that outlives the iteration, `acl = paramSetValue(…)`) has to be looked at INSIDE the loop,
+// before iteration i+1 overwrites it:
+//
+//	for index, param := range params { … acl = bind(…) …; if acl != nil { return nil, acl } }     → eachChecked
+//	for index, param := range params { … acl = bind(…) … }; if acl != nil { return nil, acl }     → lastOnly
+//
+// Results that are defined and tested on the spot (`if acl := …; acl != nil { return }`, `x, acl := …` followed by
+// the test) are scoped to their statement and need no further look.
+
+type frame struct {
+	list []ast.Stmt
+	idx  int
+}
+
+// isNilTest: `if <name> != nil { … return … }` (the return anywhere directly in the body)
+func isNilTest(st ast.Stmt, name string) bool {
+	is, ok := st.(*ast.IfStmt)
+	if !ok {
+		return false
+	}
+	be, ok := is.Cond.(*ast.BinaryExpr)
+	if !ok || be.Op != token.NEQ || exprString(be.X) != name || exprString(be.Y) != "nil" {
+		return false
+	}
+	has := false
+	ast.Inspect(is.Body, func(n ast.Node) bool {
+		if _, ok := n.(*ast.FuncLit); ok {
+			return false
+		}
+		if _, ok := n.(*ast.ReturnStmt); ok {
+			has = true
+		}
+		return true
+	})
+	return has
+}
+
+// nilTested: the identifiers the function compares with nil somewhere
+func nilTested(fd *ast.FuncDecl) map[string]bool {
+	out := map[string]bool{}
+	ast.Inspect(fd.Body, func(n ast.Node) bool {
+		if be, ok := n.(*ast.BinaryExpr); ok && (be.Op == token.NEQ || be.Op == token.EQL) && exprString(be.Y) == "nil" {
+			if id, ok := be.X.(*ast.Ident); ok {
+				out[id.Name] = true
+			}
+		}
+		return true
+	})
+	return out
+}
+
+// loopShape classifies one `for … range` loop; after: the statements that follow the loop in its block
+func loopShape(where string, loop *ast.RangeStmt, after []ast.Stmt, tested map[string]bool) string {
+	type pending struct {
+		name   string
+		frames []frame
+	}
+	var assigns []pending
+	guarded := map[string]bool{}
+	var walkList func(list []ast.Stmt, frames []frame)
+	var walkStmt func(st ast.Stmt, frames []frame)
+	record := func(as *ast.AssignStmt, frames []frame) {
+		if as.Tok != token.ASSIGN || len(as.Rhs) != 1 {
+			return
+		}
+		if _, isCall := as.Rhs[0].(*ast.CallExpr); !isCall {
+			return
+		}
+		for _, l := range as.Lhs {
+			if id, ok := l.(*ast.Ident); ok && id.Name != "_" && tested[id.Name] && !guarded[id.Name] {
+				assigns = append(assigns, pending{id.Name, append([]frame{}, frames...)})
+			}
+		}
+	}
+	walkList = func(list []ast.Stmt, frames []frame) {
+		for i, st := range list {
+			walkStmt(st, append(append([]frame{}, frames...), frame{list, i}))
+		}
+	}
+	walkStmt = func(st ast.Stmt, frames []frame) {
+		switch s := st.(type) {
+		case *ast.AssignStmt:
+			record(s, frames)
+		case *ast.BlockStmt:
+			walkList(s.List, frames)
+		case *ast.IfStmt:
+			if as, ok := s.Init.(*ast.AssignStmt); ok {
+				record(as, frames)
+			}
+			// inside `if <name> != nil { …; return … }` (the block's last statement returns) the error is already
+			// on its way out: re-assigning <name> there (decorating it: a position, a stack entry) cannot lose it
+			g := ""
+			if be, ok := s.Cond.(*ast.BinaryExpr); ok && s.Init == nil && be.Op == token.NEQ && exprString(be.Y) == "nil" {
+				if id, ok := be.X.(*ast.Ident); ok && len(s.Body.List) > 0 && !guarded[id.Name] {
+					if _, ok := s.Body.List[len(s.Body.List)-1].(*ast.ReturnStmt); ok {
+						g = id.Name
+					}
+				}
+			}
+			if g != "" {
+				guarded[g] = true
+			}
+			walkList(s.Body.List, frames)
+			if g != "" {
+				delete(guarded, g)
+			}
+			if s.Else != nil {
+				walkStmt(s.Else, frames)
+			}
+		case *ast.SwitchStmt:
+			walkList(s.Body.List, frames)
+		case *ast.TypeSwitchStmt:
+			walkList(s.Body.List, frames)
+		case *ast.CaseClause:
+			walkList(s.Body, frames)
+		case *ast.ForStmt:
+			walkList(s.Body.List, frames)
+		case *ast.RangeStmt:
+			walkList(s.Body.List, frames)
+		case *ast.LabeledStmt:
+			walkStmt(s.Stmt, frames)
+		}
+	}
+	walkList(loop.Body.List, nil)
+	shape := ".eachChecked"
+	for _, a := range assigns {
+		covered := false
+		for _, f := range a.frames {
+			for j := f.idx + 1; j < len(f.list) && !covered; j++ {
+				if isNilTest(f.list[j], a.name) {
+					covered = true
+				}
+			}
+			// `if acl = f(); acl == nil { … }`: the statement itself branches on the result; what it leaves in the
+			// variable still has to be tested further out
+		}
+		if covered {
+			continue
+		}
+		if len(after) > 0 && isNilTest(after[0], a.name) {
+			note("%s: the result of binding a parameter (`%s`) is tested after the loop only: every iteration overwrites the result of the one before", where, a.name)
+			shape = ".lastOnly"
+			continue
+		}
+		note("%s: the result of binding a parameter (`%s`) is never tested", where, a.name)
+		return ".shapeChanged"
+	}
+	return shape
+}
+
+// paramLoop finds the loop over the parameters in fd: `for … := range <over>`
+func paramLoop(fd *ast.FuncDecl, over string) (*ast.RangeStmt, []ast.Stmt) {
+	var found *ast.RangeStmt
+	var after []ast.Stmt
+	var visit func(list []ast.Stmt)
+	visit = func(list []ast.Stmt) {
+		for i, st := range list {
+			if rs, ok := st.(*ast.RangeStmt); ok && exprString(rs.X) == over && rs.Key != nil && exprString(rs.Key) == "index" && rs.Value != nil {
+				// the binding loop names both the index and the parameter
+				found, after = rs, list[i+1:]
+			}
+			ast.Inspect(st, func(n ast.Node) bool {
+				if _, ok := n.(*ast.FuncLit); ok {
+					return false
+				}
+				switch b := n.(type) {
+				case *ast.BlockStmt:
+					if n != st {
+						visit(b.List)
+						return false
+					}
+				case *ast.CaseClause:
+					visit(b.Body)
+					return false
+				}
+				return true
+			})
+		}
+	}
+	visit(fd.Body.List)
+	return found, after
+}
+
 // ---------------------------------------------------------------- main
+
+// ---------------------------------------------------------------- named arguments
+//
+// Every binding loop first puts the arguments of the call into parameter order:
+//
+//	<args>, err := resolveNamedArguments(<params>, <args>)
+//	if err != nil { return … }
+//	for index, param := range <params> { … }
+//
+// resolvedBefore: that assignment, followed directly by the test of err, stands before the loop (and not inside a
+// function literal).
+func resolvedBefore(fd *ast.FuncDecl, loop *ast.RangeStmt) bool {
+	found := false
+	var visit func(list []ast.Stmt)
+	visit = func(list []ast.Stmt) {
+		for i, st := range list {
+			if as, ok := st.(*ast.AssignStmt); ok && len(as.Rhs) == 1 && len(as.Lhs) == 2 && as.Pos() < loop.Pos() {
+				if c, ok := as.Rhs[0].(*ast.CallExpr); ok && exprString(c.Fun) == "resolveNamedArguments" && len(c.Args) == 2 {
+					errName := exprString(as.Lhs[1])
+					if i+1 < len(list) && isNilTest(list[i+1], errName) {
+						found = true
+					}
+				}
+			}
+			ast.Inspect(st, func(n ast.Node) bool {
+				if _, ok := n.(*ast.FuncLit); ok {
+					return false
+				}
+				switch b := n.(type) {
+				case *ast.BlockStmt:
+					if n != st {
+						visit(b.List)
+						return false
+					}
+				case *ast.CaseClause:
+					visit(b.Body)
+					return false
+				}
+				return true
+			})
+		}
+	}
+	visit(fd.Body.List)
+	return found
+}
+
+// resolveShape: the text of resolveNamedArguments that Model.ArgNames.place / resolveFrom mirror
+func resolveShape(fn func(file, recv, name string) *ast.FuncDecl) {
+	h := fn("name_argument.go", "", "resolveNamedArguments")
+	if h == nil {
+		return
+	}
+	txt := nodeText(h.Body)
+	for _, want := range []string{
+		"if !hasNamedArgument(arguments) { return arguments, nil }",
+		"for _, a := range arguments {",
+		"na, ok := a.(*NamedArgument) if !ok { out = append(out, a) continue }",
+		"idx := -1 for i, p := range params { if n, ok := p.(data.GetName); ok && n.GetName() == na.Name { idx = i break } }",
+		"if idx < 0 { return nil, errors.New(",
+		"for len(out) <= idx { out = append(out, omittedArg) }",
+		"if !isOmittedArgument(out[idx]) { return nil, errors.New(",
+		"out[idx] = na.Value } return out, nil",
+	} {
+		if !strings.Contains(txt, want) {
+			note("resolveNamedArguments: %q not found", want)
+		}
+	}
+	if h := fn("name_argument.go", "", "isOmittedArgument"); h != nil {
+		if !strings.Contains(nodeText(h.Body), "_, ok := arg.(*omittedArgument) return ok") {
+			note("isOmittedArgument: shape not recognised")
+		}
+	}
+}
 
 func main() {
 	args := ex.ParseArgs()
@@ -1257,7 +1542,7 @@ func main() {
 	bounds = append(bounds, bentry{"closureReturn", retKind("closureReturn", fn("lambda.go", "*LambdaExpression", "Call"))})
 	promoted := ".shapeChanged"
 	if fd := fn("new.go", "", "paramSetValue"); fd != nil {
-		body := caseBody(fd, "*PromotedParameter")
+		body := caseBodyMain(fd, "*PromotedParameter")
 		switch {
 		case body == nil:
 			note("paramSetValue: case *PromotedParameter not found")
@@ -1268,6 +1553,77 @@ func main() {
 		}
 	}
 	bounds = append(bounds, bentry{"promotedParam", promoted})
+
+	// `T ...$xs`: every packing site tests each collected argument with Parameters.checkElement (`Is` or error)
+	variadic := ".shapeChanged"
+	{
+		sites := 0
+		calls := 0
+		for _, x := range []struct{ file, recv, name, call string }{
+			{"new.go", "", "paramSetValue", "param.checkElement"},
+			{"call_object_method.go", "*CallObjectMethod", "callMethodParams", "p.checkElement"},
+			{"call_method.go", "*CallMethod", "handleFuncValue", "argObj.checkElement"},
+		} {
+			fd := fn(x.file, x.recv, x.name)
+			if fd == nil {
+				continue
+			}
+			body := caseBodyMain(fd, "*Parameters")
+			if body == nil {
+				note("%s: case *Parameters not found", x.name)
+				continue
+			}
+			sites++
+			if containsCall(&ast.BlockStmt{List: body}, x.call) {
+				calls++
+			}
+		}
+		var ce *ast.FuncDecl
+		if f := files["function.go"]; f != nil {
+			ce = ex.FuncDecl(f, "*Parameters", "checkElement")
+		}
+		switch {
+		case sites == 3 && calls == 3 && ce != nil && containsCall(ce.Body, "p.Type.Is") && returnsError(ce.Body.List):
+			variadic = ".exact"
+		case sites == 3 && calls == 0:
+			variadic = ".unchecked"
+		default:
+			note("variadicParam: %d of %d packing sites test the collected arguments", calls, sites)
+		}
+	}
+	bounds = append(bounds, bentry{"variadicParam", variadic})
+
+	// ---- the binding loops
+	type lentry struct{ name, shape string }
+	var loops []lentry
+	type nentry struct {
+		name  string
+		first bool
+	}
+	var named []nentry
+	for _, x := range []struct{ name, file, recv, fn, over string }{
+		{"fn", "call.go", "*CallExpression", "GetValue", "params"},
+		{"ctor", "new.go", "", "createInstanceFromClassStmt", "params"},
+		{"method", "call_object_method.go", "*CallObjectMethod", "callMethodParams", "params"},
+		{"funcValue", "call_method.go", "*CallMethod", "handleFuncValue", "fn.GetParams()"},
+	} {
+		fd := fn(x.file, x.recv, x.fn)
+		if fd == nil {
+			loops = append(loops, lentry{x.name, ".shapeChanged"})
+			named = append(named, nentry{x.name, false})
+			continue
+		}
+		loop, after := paramLoop(fd, x.over)
+		if loop == nil {
+			note("%s %s: the loop over the parameters was not found", x.file, x.fn)
+			loops = append(loops, lentry{x.name, ".shapeChanged"})
+			named = append(named, nentry{x.name, false})
+			continue
+		}
+		loops = append(loops, lentry{x.name, loopShape(x.file+" "+x.fn, loop, after, nilTested(fd))})
+		named = append(named, nentry{x.name, resolvedBefore(fd, loop)})
+	}
+	resolveShape(fn)
 
 	// ---- enforcement on every evaluation
 	memoScan(files, map[string]bool{
@@ -1289,8 +1645,33 @@ func main() {
 	for _, b := range bounds {
 		fmt.Fprintf(&sb, "  | .%s => %s\n", b.name, b.kind)
 	}
+	sb.WriteString("\n/-- what each binding loop does with the result of binding one parameter -/\ndef bindLoops : List (String × LoopShape) := [")
+	for i, l := range loops {
+		if i > 0 {
+			sb.WriteString(", ")
+		}
+		fmt.Fprintf(&sb, "(%s, %s)", ex.LeanString(l.name), l.shape)
+	}
+	sb.WriteString("]\n")
+	sb.WriteString("\n/-- does the function put the arguments into parameter order (`resolveNamedArguments`, error tested) before its\nbinding loop -/\ndef namedFirst : List (String × Bool) := [")
+	for i, l := range named {
+		if i > 0 {
+			sb.WriteString(", ")
+		}
+		fmt.Fprintf(&sb, "(%s, %v)", ex.LeanString(l.name), l.first)
+	}
+	sb.WriteString("]\n")
 	fmt.Fprintf(&sb, "\n/-- does `new` run the abstract test first and the completeness validation on every call -/\ndef instGlue : Model.Inst.Glue := ⟨%v, %v⟩\n", abstractFirst, validateEvery)
 	sort.Strings(notes)
+	{
+		var uniq []string
+		for i, n := range notes {
+			if i == 0 || n != notes[i-1] {
+				uniq = append(uniq, n)
+			}
+		}
+		notes = uniq
+	}
 	sb.WriteString("\n/-- where the translator did not find the shape it expects -/\ndef shapeNotes : List String := [")
 	for i, n := range notes {
 		if i > 0 {
@@ -1303,7 +1684,7 @@ func main() {
 		fmt.Fprintln(os.Stderr, "extract/c07:", err)
 		os.Exit(1)
 	}
-	fmt.Printf("c07: %d access arms, %d boundaries, %d shape notes\n", 2*len(table), len(bounds), len(notes))
+	fmt.Printf("c07: %d access arms, %d boundaries, %d binding loops, %d shape notes\n", 2*len(table), len(bounds), len(loops), len(notes))
 	for _, n := range notes {
 		fmt.Println("  note:", n)
 	}
